@@ -677,6 +677,9 @@ EXPLANATION = (
     "- kills) U uses) and the may/must distinction: a callee's capture writes must not act as kills for a pruning verdict. "
     "Decides the integrity of the mechanism; does not decide soundness of the liveness/summary fixpoints as algorithms."
 )
+EXPLANATION += (
+    " Added after seeded changes were missed: R1b an assignment to an enclosing variable is an effect - the writing statement is classed Impure, or the summaries' class is derived from the capture-write sets, or stmt_effective_class reads them (one of the three must hold); R4b every use of a looked-up variable is recorded for the statement and, on every path, also for the enclosing function (read with read, write with write); R4c summarize_component extends each transitive set of the caller with the same transitive set of the callee, raises the change flag when a set grew, joins the callee's transitive class, and every transitive set starts from the direct set of the same kind."
+)
 ASSUMPTIONS = ["the tables in effects.rs are the only source of built-in effect classes", "user-function effects enter only through summaries (direct_callees)"]
 TRUSTED = ["rustc nightly MIR/HIR", "nsx exporter", "nsverif table extraction (constant propagation over acyclic table functions)"]
 NONTRIVIAL = "one obligation per push site clause, per built-in variant, per join cell and per equation-order clause; distinct = distinct clause"
